@@ -189,20 +189,22 @@ Definition get_or_create (names : list Z) (x : Z) : list Z * Z :=
 
 (** * Property storage (property.rs) *)
 
-(** PropertyColumn::update_zone_map_on_insert *)
-Definition zone_insert (z : zone) (v : value) : zone :=
+(** PropertyColumn::update_zone_map_on_insert, over the comparison function ([cmp_zone] now,
+    [cmp_zone_pre] before fix c5e300e) *)
+Definition zone_insert_g (cmp : value -> value -> option comparison) (z : zone) (v : value) : zone :=
   if is_null v then
     {| z_min := z_min z; z_max := z_max z; z_nulls := z_nulls z + 1; z_rows := z_rows z + 1 |}
   else
     {| z_min := match z_min z with
                 | None => Some v
-                | Some cur => match cmp_zone v cur with Some Lt => Some v | _ => Some cur end
+                | Some cur => match cmp v cur with Some Lt => Some v | _ => Some cur end
                 end;
        z_max := match z_max z with
                 | None => Some v
-                | Some cur => match cmp_zone v cur with Some Gt => Some v | _ => Some cur end
+                | Some cur => match cmp v cur with Some Gt => Some v | _ => Some cur end
                 end;
        z_nulls := z_nulls z; z_rows := z_rows z + 1 |}.
+Definition zone_insert (z : zone) (v : value) : zone := zone_insert_g cmp_zone z v.
 
 (** PropertyColumn::set (CompressionMode::None) *)
 Definition col_set (c : column) (id : Z) (v : value) : column :=
@@ -231,87 +233,90 @@ Definition ps_get_all (p : pstore) (id : Z) : list (Z * value) :=
 Definition zone_all_null (z : zone) : bool := (0 <? z_rows z) && (z_nulls z =? z_rows z).
 Definition zone_non_null (z : zone) : bool := z_nulls z <? z_rows z.
 
-Definition zone_eq (z : zone) (v : value) : bool :=
-  if is_null v then 0 <? z_nulls z
-  else if zone_all_null z then false
-  else match z_min z, z_max z with
-       | Some mn, Some mx =>
-           match cmp_zone v mn, cmp_zone v mx with
-           | Some Lt, _ => false
-           | _, Some Gt => false
-           | _, _ => true
-           end
-       | _, _ => zone_non_null z
-       end.
-
-Definition zone_lt (z : zone) (v : value) (inclusive : bool) : bool :=
-  match z_min z with
-  | Some mn => match cmp_zone mn v with
-               | Some Lt => true
-               | Some Eq => inclusive
-               | Some Gt => false
-               | None => true
-               end
-  | None => 0 <? z_nulls z
-  end.
-
-Definition zone_gt (z : zone) (v : value) (inclusive : bool) : bool :=
-  match z_max z with
-  | Some mx => match cmp_zone mx v with
-               | Some Gt => true
-               | Some Eq => inclusive
-               | Some Lt => false
-               | None => true
-               end
-  | None => 0 <? z_nulls z
-  end.
-
-Definition zone_range (z : zone) (lo hi : option value) (lo_incl hi_incl : bool) : bool :=
-  match lo with
-  | Some l => if zone_gt z l lo_incl then
-                match hi with Some h => zone_lt z h hi_incl | None => true end
-              else false
-  | None => match hi with Some h => zone_lt z h hi_incl | None => true end
-  end.
-
 Inductive cmpop := OpEq | OpNe | OpLt | OpLe | OpGt | OpGe.
 
-(** PropertyColumn::might_match (since fix 1879631 [<>] is never pruned) *)
-Definition col_might_match (c : column) (o : cmpop) (v : value) : bool :=
-  if c_dirty c then true
-  else match o with
-       | OpEq => zone_eq (c_zone c) v
-       | OpNe => true
-       | OpLt => zone_lt (c_zone c) v false
-       | OpLe => zone_lt (c_zone c) v true
-       | OpGt => zone_gt (c_zone c) v false
-       | OpGe => zone_gt (c_zone c) v true
-       end.
+Section ZonePredicates.
+  Variable cmp : value -> value -> option comparison.
 
-(** the pre-1879631 behaviour: [<>] was pruned when min == max == v *)
-Definition col_might_match_pre (c : column) (o : cmpop) (v : value) : bool :=
-  if c_dirty c then true
-  else match o with
-       | OpEq => zone_eq (c_zone c) v
-       | OpNe => match z_min (c_zone c), z_max (c_zone c) with
-                 | Some mn, Some mx =>
-                     negb (match cmp_zone mn v, cmp_zone mx v with
-                           | Some Eq, Some Eq => true
-                           | _, _ => false
-                           end)
-                 | _, _ => true
+  Definition zone_eq_g (z : zone) (v : value) : bool :=
+    if is_null v then 0 <? z_nulls z
+    else if zone_all_null z then false
+    else match z_min z, z_max z with
+         | Some mn, Some mx =>
+             match cmp v mn, cmp v mx with
+             | Some Lt, _ => false
+             | _, Some Gt => false
+             | _, _ => true
+             end
+         | _, _ => zone_non_null z
+         end.
+
+  Definition zone_lt_g (z : zone) (v : value) (inclusive : bool) : bool :=
+    match z_min z with
+    | Some mn => match cmp mn v with
+                 | Some Lt => true
+                 | Some Eq => inclusive
+                 | Some Gt => false
+                 | None => true
                  end
-       | OpLt => zone_lt (c_zone c) v false
-       | OpLe => zone_lt (c_zone c) v true
-       | OpGt => zone_gt (c_zone c) v false
-       | OpGe => zone_gt (c_zone c) v true
-       end.
+    | None => 0 <? z_nulls z
+    end.
+
+  Definition zone_gt_g (z : zone) (v : value) (inclusive : bool) : bool :=
+    match z_max z with
+    | Some mx => match cmp mx v with
+                 | Some Gt => true
+                 | Some Eq => inclusive
+                 | Some Lt => false
+                 | None => true
+                 end
+    | None => 0 <? z_nulls z
+    end.
+
+  Definition zone_range_g (z : zone) (lo hi : option value) (lo_incl hi_incl : bool) : bool :=
+    match lo with
+    | Some l => if zone_gt_g z l lo_incl then
+                  match hi with Some h => zone_lt_g z h hi_incl | None => true end
+                else false
+    | None => match hi with Some h => zone_lt_g z h hi_incl | None => true end
+    end.
+
+  (** PropertyColumn::might_match; [prune_ne]: the behaviour before fix 1879631, which pruned [<>]
+      when min == max == v *)
+  Definition col_might_match_g (prune_ne : bool) (c : column) (o : cmpop) (v : value) : bool :=
+    if c_dirty c then true
+    else match o with
+         | OpEq => zone_eq_g (c_zone c) v
+         | OpNe => if prune_ne then
+                     match z_min (c_zone c), z_max (c_zone c) with
+                     | Some mn, Some mx =>
+                         negb (match cmp mn v, cmp mx v with
+                               | Some Eq, Some Eq => true
+                               | _, _ => false
+                               end)
+                     | _, _ => true
+                     end
+                   else true
+         | OpLt => zone_lt_g (c_zone c) v false
+         | OpLe => zone_lt_g (c_zone c) v true
+         | OpGt => zone_gt_g (c_zone c) v false
+         | OpGe => zone_gt_g (c_zone c) v true
+         end.
+End ZonePredicates.
+
+Definition zone_eq := zone_eq_g cmp_zone.
+Definition zone_lt := zone_lt_g cmp_zone.
+Definition zone_gt := zone_gt_g cmp_zone.
+Definition zone_range := zone_range_g cmp_zone.
+(** the current code: exact comparison (c5e300e), [<>] never pruned (1879631) *)
+Definition col_might_match := col_might_match_g cmp_zone false.
+(** before c5e300e (after 1879631), and before both *)
+Definition col_might_match_pre_k4 := col_might_match_g cmp_zone_pre false.
+Definition col_might_match_pre_k5 := col_might_match_g cmp_zone_pre true.
 
 (** PropertyStorage::might_match / might_match_range (the latter does not look at the dirty flag) *)
 Definition ps_might_match (p : pstore) (key : Z) (o : cmpop) (v : value) : bool :=
   match zget p key with Some c => col_might_match c o v | None => true end.
-Definition ps_might_match_pre (p : pstore) (key : Z) (o : cmpop) (v : value) : bool :=
-  match zget p key with Some c => col_might_match_pre c o v | None => true end.
 Definition ps_might_match_range (p : pstore) (key : Z) (lo hi : option value) (li hi_i : bool) : bool :=
   match zget p key with Some c => zone_range (c_zone c) lo hi li hi_i | None => true end.
 
@@ -596,8 +601,8 @@ Definition do_set_edge_prop (s : state) (id key : Z) (v : value) : state * ret :
 Definition do_remove_edge_prop (s : state) (id key : Z) : state * ret :=
   (with_eprops (ps_remove (eprops s) id key) s, ROptV (ps_get (eprops s) id key)).
 
-(** add_label (non-tiered) *)
-Definition do_add_label (s : state) (n l : Z) : state * ret :=
+(** add_label (non-tiered) before fix 2e121d0: needs_stats_recompute untouched *)
+Definition do_add_label_pre (s : state) (n l : Z) : state * ret :=
   if node_live s n then
     let '(names, lid) := get_or_create (lab_names s) l in
     let set := match zget (node_labels s) n with Some x => x | None => [] end in
@@ -608,8 +613,8 @@ Definition do_add_label (s : state) (n l : Z) : state * ret :=
       (with_labels names (lab_index_insert (lab_index s) lid n) (zset (node_labels s) n (sadd lid set)) s, RBool true)
   else (s, RBool false).
 
-(** remove_label (non-tiered) *)
-Definition do_remove_label (s : state) (n l : Z) : state * ret :=
+(** remove_label (non-tiered) before fix 2e121d0 *)
+Definition do_remove_label_pre (s : state) (n l : Z) : state * ret :=
   if node_live s n then
     match find_pos l (lab_names s) 0 with
     | Some lid =>
@@ -623,6 +628,13 @@ Definition do_remove_label (s : state) (n l : Z) : state * ret :=
     | None => (s, RBool false)
     end
   else (s, RBool false).
+
+(** add_label / remove_label since 2e121d0: the statistics are marked for recomputation (the flag
+    is stored on entry, whatever the outcome; the other fields do not depend on it) *)
+Definition do_add_label (s : state) (n l : Z) : state * ret :=
+  let r := do_add_label_pre s n l in (mark_stats_dirty (fst r), snd r).
+Definition do_remove_label (s : state) (n l : Z) : state * ret :=
+  let r := do_remove_label_pre s n l in (mark_stats_dirty (fst r), snd r).
 
 (** create_property_index: built from the live nodes *)
 Definition build_index (s : state) (key : Z) : vindex :=
@@ -681,15 +693,47 @@ Definition step (s : state) (o : op) : state * ret :=
   | NewEpoch => (with_epoch (epoch s + 1) s, RId (epoch s + 1))
   end.
 
-(** the same machine with the pre-repair delete_node *)
+(** the same machine with the pre-repair delete_node (before ebcbf15) *)
 Definition step_pre (s : state) (o : op) : state * ret :=
   match o with
   | DeleteNode n => do_delete_node_pre s n
   | _ => step s o
   end.
+(** the same machine with the pre-repair add_label / remove_label (before 2e121d0) *)
+Definition step_pre_k7 (s : state) (o : op) : state * ret :=
+  match o with
+  | AddLabel n l => do_add_label_pre s n l
+  | RemoveLabel n l => do_remove_label_pre s n l
+  | _ => step s o
+  end.
 
 Definition run (s : state) (ops : list op) : state := fold_left (fun st o => fst (step st o)) ops s.
 Definition run_pre (s : state) (ops : list op) : state := fold_left (fun st o => fst (step_pre st o)) ops s.
+Definition run_pre_k7 (s : state) (ops : list op) : state := fold_left (fun st o => fst (step_pre_k7 st o)) ops s.
+
+(** * GrafeoDB's wrappers: the store operation itself, except delete_node, which since fix 109e5bf
+    deletes the incident edges of a live node first (outgoing, then incoming, each through
+    delete_edge) -- that is [DeleteNodeEdges n; DeleteNode n] *)
+Inductive dop :=
+| Basic (o : op)
+| DbDeleteNode (n : Z).
+Definition dexpand1 (s : state) (d : dop) : list op :=
+  match d with
+  | Basic o => [o]
+  | DbDeleteNode n => if node_live s n then [DeleteNodeEdges n; DeleteNode n] else [DeleteNode n]
+  end.
+Definition dstep (s : state) (d : dop) : state * ret :=
+  match d with
+  | Basic o => step s o
+  | DbDeleteNode n => if node_live s n then step (fst (step s (DeleteNodeEdges n))) (DeleteNode n) else step s (DeleteNode n)
+  end.
+Definition drun (s : state) (ds : list dop) : state := fold_left (fun st d => fst (dstep st d)) ds s.
+(** the store-level history a GrafeoDB-level history amounts to *)
+Fixpoint dexpand (s : state) (ds : list dop) : list op :=
+  match ds with
+  | [] => []
+  | d :: r => dexpand1 s d ++ dexpand (fst (dstep s d)) r
+  end.
 
 (** * Accessors (store.rs) *)
 
@@ -752,7 +796,16 @@ Definition in_degree (s : state) (n : Z) : Z :=
 (** the scan of find_nodes_by_property *)
 Definition scan_by_prop (s : state) (key : Z) (v : value) : list Z :=
   filter (fun n => match ps_get (nprops s) n key with Some x => value_ieee_eqb x v | None => false end) (node_ids s).
+(** find_nodes_by_property: through the index, unless the value contains a float NaN or zero, on
+    which the index keys (bit patterns) and the scan ([==]) differ (fix c82f983) *)
 Definition find_by_prop (s : state) (key : Z) (v : value) : list Z :=
+  match zget (pidx s) key with
+  | Some ix => if has_float_special v then scan_by_prop s key v
+               else match vget ix v with Some ns => ns | None => [] end
+  | None => scan_by_prop s key v
+  end.
+(** before c82f983: the index whenever there is one *)
+Definition find_by_prop_pre (s : state) (key : Z) (v : value) : list Z :=
   match zget (pidx s) key with
   | Some ix => match vget ix v with Some ns => ns | None => [] end
   | None => scan_by_prop s key v
@@ -760,7 +813,7 @@ Definition find_by_prop (s : state) (key : Z) (v : value) : list Z :=
 (** the same lookup against the pre-repair machine is the same function of the state *)
 
 (** find_nodes_by_properties (conjunction of equalities): start from the smallest result of an
-    indexed condition (the first of the smallest ones), or from find_nodes_by_property of the first
+    indexed condition (indexed: the key has an index and the value no float NaN / zero, c82f983) (the first of the smallest ones), or from find_nodes_by_property of the first
     condition when no condition is indexed; an indexed condition without a match ends the lookup;
     the remaining conditions filter the candidates by [Value::eq] on the stored value *)
 Definition cond_holds (s : state) (c : Z * value) (n : Z) : bool :=
@@ -770,7 +823,7 @@ Fixpoint best_start (s : state) (conds : list (Z * value)) (i : Z) (best : optio
   match conds with
   | [] => Some best
   | c :: r =>
-      match zget (pidx s) (fst c) with
+      match (if has_float_special (snd c) then None else zget (pidx s) (fst c)) with
       | Some ix =>
           let m := match vget ix (snd c) with Some ns => ns | None => [] end in
           match m with
